@@ -76,6 +76,7 @@ type Exec struct {
 	retCount     map[string]int
 	probes       map[string]map[string]Val
 	countersRegistered bool
+	ancestors map[string][]string
 }
 
 func newExec(p *Program, sp *Specs) *Exec {
@@ -84,7 +85,7 @@ func newExec(p *Program, sp *Specs) *Exec {
 		used: map[string]bool{}, maxPaths: 6000, tids: map[string]int{}, instrOrd: map[ssa.Instruction]int{},
 		covers: map[string]bool{}, known: map[string]Val{}, globals: map[string]bool{}, sliceVals: map[string][]Val{},
 		cellVals: map[string]Val{}, typeCache: map[string]types.Type{}, modCache: map[*ssa.Function]*modSet{},
-		uncovered: map[string]bool{}, closeSites: map[string]bool{}, retCount: map[string]int{}, probes: map[string]map[string]Val{}}
+		uncovered: map[string]bool{}, closeSites: map[string]bool{}, retCount: map[string]int{}, probes: map[string]map[string]Val{}, ancestors: map[string][]string{}}
 }
 
 func (ex *Exec) unsupported(format string, a ...interface{}) {
@@ -171,7 +172,7 @@ func (ex *Exec) typeFacts(st *State, v Val) {
 		if _, _, ok := intBits(v.Typ); ok {
 			st.assume(rangeFact(v.Typ, v.T))
 		} else if isRefLike(v.Typ) {
-			st.assume(fmt.Sprintf("(> %s %d)", v.T, -(ex.nalloc + 1)))
+			st.assume("(> " + v.T + " " + smtInt(int64(-(ex.nalloc+1))) + ")")
 		} else if _, ok := types.Unalias(v.Typ).Underlying().(*types.Slice); ok {
 			st.assume("(and (>= (slen " + v.T + ") 0) (< (slen " + v.T + ") 4611686018427387904))")
 		}
@@ -260,7 +261,7 @@ func (ex *Exec) load(st *State, p Val) Val {
 		v := ex.mkVal(el, "("+satFn(so)+" "+p.T+" "+p.Prefix+")")
 		if isRefLike(el) {
 			v.T = st.bind("elem", "Int", v.T)
-			st.assume(fmt.Sprintf("(> %s %d)", v.T, -(ex.nalloc + 1)))
+			st.assume("(> " + v.T + " " + smtInt(int64(-(ex.nalloc+1))) + ")")
 		}
 		return v
 	}
@@ -292,7 +293,7 @@ func (ex *Exec) load(st *State, p Val) Val {
 		// cannot be an object allocated later on this path
 		t2 := st.bind("ld", "Int", t)
 		v.T = t2
-		st.assume(fmt.Sprintf("(> %s %d)", t2, -(ex.nalloc + 1)))
+		st.assume("(> " + t2 + " " + smtInt(int64(-(ex.nalloc+1))) + ")")
 	}
 	return v
 }
